@@ -59,6 +59,7 @@ Definition I_ := Build_inst.
 Definition C_ := Build_case.
 Definition chk (p : case * outcome) : bool :=
   valid_case (fst p) && outcome_eqb (stage Model (fst p)) (snd p) && C09_ok (fst p) (snd p).
+Definition chk_all (p : case * outcome) : bool := chk p && hyg (fst p).
 Definition chk_valid (p : case * outcome) : bool := valid_case (fst p).
 Definition chk_corr (p : case * outcome) : bool := outcome_eqb (stage Model (fst p)) (snd p).
 Definition chk_mon (p : case * outcome) : bool := C09_ok (fst p) (snd p).
@@ -808,28 +809,29 @@ def evaluate(ck, cases, tag, shard):
     ok_rows = [r for r in rows if r["model"] is not None and r["model"]["order"] is not None
                and not (isinstance(r["obs"], str) and r["obs"].startswith("EXC:"))]
     lits = ["(%s, %s)" % (g_case(r["model"]), g_obs(r["obs"])) for r in ok_rows]
-    bad, errs = common.coq_failing("C09" + tag, HEADER, "case * outcome", "chk", lits, shard=shard, timeout=1500)
+    # one pass: correspondence && monitor && hygiene; the flagged cases are then
+    # looked at conjunct by conjunct
+    flagged, errs = common.coq_failing("C09" + tag, HEADER, "case * outcome", "chk_all", lits, shard=shard, timeout=1500)
     for r in ok_rows:
-        r["bad"] = False
-    for i in bad:
-        ok_rows[i]["bad"] = True
-    # hygiene of every case (coverage figure + classification)
-    nh, errs2 = common.coq_failing("C09h" + tag, HEADER, "case * outcome", "chk_hyg", lits, shard=shard, timeout=1500)
-    for r in ok_rows:
-        r["hyg"] = True
-    for i in nh:
-        ok_rows[i]["hyg"] = False
-    # details for the failing ones
-    badrows = [r for r in ok_rows if r["bad"]]
-    if badrows:
-        blits = ["(%s, %s)" % (g_case(r["model"]), g_obs(r["obs"])) for r in badrows]
-        for key in ("chk_valid", "chk_corr", "chk_mon", "chk_notK4a"):
-            f, e = common.coq_failing("C09d" + tag, HEADER, "case * outcome", key, blits, shard=shard, timeout=1500)
+        r["bad"], r["hyg"] = False, True
+    frows = [ok_rows[i] for i in flagged]
+    errs2 = []
+    if frows:
+        flits = [lits[i] for i in flagged]
+        keys = ("chk", "chk_hyg", "chk_valid", "chk_corr", "chk_mon", "chk_notK4a")
+        from concurrent.futures import ThreadPoolExecutor
+        with ThreadPoolExecutor(max_workers=len(keys)) as ex:
+            res = list(ex.map(lambda key: common.coq_failing("C09d_%s%s" % (key, tag), HEADER, "case * outcome", key,
+                                                             flits, shard=max(8, shard // 2), timeout=1500), keys))
+        for key, (f, e) in zip(keys, res):
             errs2 = errs2 + e
-            for r in badrows:
+            for r in frows:
                 r[key] = True
             for i in f:
-                badrows[i][key] = False
+                frows[i][key] = False
+        for r in frows:
+            r["bad"] = not r["chk"]
+            r["hyg"] = r["chk_hyg"]
     return rows, errs + errs2
 
 
@@ -903,18 +905,26 @@ def core_run(ck, rng, n, dist):
 
 
 def run(ck):
+    import time
+    t0 = time.time()
+    marks = {}
     ck.build_proofs()
+    marks["build_proofs_s"] = round(time.time() - t0, 1)
     rng = random.Random(ck.seed * 7919 + 9)
     quick = ck.tier != "thorough"
     n_valid, n_exotic, n_core = (140, 39, 400) if quick else (2600, 520, 6000)
     dist = Counter()
     corpus = load_corpus()
     cases = corpus + generate(rng, n_valid, n_exotic)
-    rows, errs = evaluate(ck, cases, "", shard=(24 if quick else 200))
+    rows, errs = evaluate(ck, cases, "", shard=(12 if quick else 200))
+    marks["stage_stream_s"] = round(time.time() - t0, 1)
     classify(ck, rows, errs, dist)
+    marks["classify_s"] = round(time.time() - t0, 1)
     core_run(ck, rng, n_core, dist)
     scan_run(ck, rng, 300 if quick else 4000, dist)
     nested_run(ck, rng, 200 if quick else 3000, dist)
+    marks["small_streams_s"] = round(time.time() - t0, 1)
+    ck.notes["cumulative_wall"] = marks
     # known-finding witnesses must be present in the corpus
     for kn in ck.known:
         w = kn.get("witness", "")
